@@ -51,6 +51,10 @@ CLAIMED = {
          "Structural necessary conditions of the totality clause (no out-of-range index for any pattern/input, no abort, no state-preserving path around a loop) and of the 'consequently' clause (the consumers ask Glob(pattern, input) and act on the first match / on each matching block once, in order). That Glob computes glob matching is a functional statement and is not decided (the pinned matcher's missing backtracking, F6, was found by reading and repaired, not detected by this check).",
          "Trusts go/ssa. The progress rule is a necessary condition of termination, not a termination proof.",
          "DESIGN.md §3 C20"),
+ "C04": ("decision tables over go/ssa paths with a small closed theory (equality of enum / fingerprint operands, boolean call results, a total order on time values normalised from Before/After/Equal): success paths must entail every validity obligation, the branch deciding each failing return must be the complement of one; def-use checks of the signed range; who-may-write on raw/Fingerprint",
+         "Structural necessary conditions in both directions: Store.VerifyLeaf accepts only chains that satisfy every clause of the statement (types, name, [IssuedAt, ExpiresAt) for all three, parent provenance, store-only anchor, both signatures) and rejects only through the complement of such a clause; VerifyParent's pairing, link and signature arguments; MatchesName / Name.IsZero / authkeys.VerifyLeaf fail-closed; issuance produces what verification demands (validity window inside the parent's, clamped expiry, signed range, parent types).",
+         "Trusts go/ssa and the field/role tables. Ed25519, SHA-3 and the encoding round-trip are outside (primitives; C18).",
+         "DESIGN.md §3 C04"),
 }
 
 NOT_APPLICABLE = {
